@@ -23,15 +23,25 @@ ENV = dict(os.environ, CARGO_NET_OFFLINE="true")
 
 
 def sh(cmd, cwd=None, timeout=None, env=None):
+    """run a command in its own process group; on timeout the whole group is killed (a killed verus otherwise leaves
+    its z3 child running, a killed cargo-kani its cbmc)"""
+    import signal
     t0 = time.time()
+    p = subprocess.Popen(cmd, cwd=cwd, env=env or ENV, stdout=subprocess.PIPE, stderr=subprocess.PIPE, text=True,
+                         errors="replace", start_new_session=True)
     try:
-        p = subprocess.run(cmd, cwd=cwd, timeout=timeout, env=env or ENV, stdout=subprocess.PIPE,
-                           stderr=subprocess.PIPE, text=True, errors="replace")
-        return p.returncode, p.stdout, p.stderr, time.time() - t0
-    except subprocess.TimeoutExpired as e:
-        def dec(x):
-            return x.decode(errors="replace") if isinstance(x, bytes) else (x or "")
-        return -9, dec(e.stdout), dec(e.stderr), time.time() - t0
+        out, err = p.communicate(timeout=timeout)
+        return p.returncode, out, err, time.time() - t0
+    except subprocess.TimeoutExpired:
+        try:
+            os.killpg(p.pid, signal.SIGKILL)
+        except Exception:
+            p.kill()
+        try:
+            out, err = p.communicate(timeout=30)
+        except Exception:
+            out, err = "", ""
+        return -9, out or "", err or "", time.time() - t0
 
 
 # ------------------------------------------------------------------------------------------------
